@@ -38,7 +38,8 @@ theorem linear_ops (p q : Quat F) (k : F) :
   refine ⟨Quat.toH_add p q, Quat.toH_sub p q, Quat.toH_neg p, Quat.toH_smul p k, ?_⟩
   ext <;> simp <;> ring
 
-/-- for `q ≠ 0` (`|q|² ≠ 0`) the rotation inverse is a two-sided inverse -/
+/-- under the hypothesis `|q|² ≠ 0` (stated as `q.magnitude2 ≠ 0`; that this is the same as `q ≠ 0`, true in an ordered field,
+is not proved here) the rotation inverse is a two-sided inverse -/
 theorem mul_invert (q : Quat F) (h : q.magnitude2 ≠ 0) :
     q * q.invert = Quat.one ∧ q.invert * q = Quat.one := by
   have e : q.invert = q.conjugate * (1 / q.magnitude2) := by
